@@ -38,6 +38,10 @@ pub struct SrvCfg {
     /// `ServerProc::log_sink_open` is set: a log sink that can stall (a blocked terminal, a slow
     /// journal) instead of a file that never does
     pub log_pipe: bool,
+    /// listen on 0.0.0.0 (every local address) instead of 127.0.0.1
+    pub any_iface: bool,
+    /// write the seed in upper-case hex (the same 32 bytes)
+    pub seed_upper: bool,
 }
 
 impl SrvCfg {
@@ -59,11 +63,13 @@ impl SrvCfg {
             v6: false,
             ignore_signals: Vec::new(),
             log_pipe: false,
+            any_iface: false,
+            seed_upper: false,
         }
     }
 
     pub fn pairs(&self) -> Vec<(&'static str, String)> {
-        let mut v = vec![("interface", if self.v6 { "[::1]".to_string() } else { "127.0.0.1".to_string() }), ("port", self.port.to_string()), ("seed", hex(&self.seed))];
+        let mut v = vec![("interface", if self.v6 { "[::1]".to_string() } else if self.any_iface { "0.0.0.0".to_string() } else { "127.0.0.1".to_string() }), ("port", self.port.to_string()), ("seed", if self.seed_upper { hex(&self.seed).to_uppercase() } else { hex(&self.seed) })];
         if let Some(x) = self.batch_size {
             v.push(("batch_size", x.to_string()));
         }
@@ -306,6 +312,19 @@ pub fn spawn_server(bins: &Path, cfg: &SrvCfg, dir: &Path, tag: &str, raw_pairs:
     } else {
         let path = dir.join(format!("{}.cfg", tag));
         let mut txt = String::new();
+        // the order of the keys in the file carries no meaning: written order, reversed, or rotated
+        // (files with verbatim lines keep their order: there it is part of the scenario)
+        let mut pairs = pairs.clone();
+        if !pairs.iter().any(|(k, _)| k.starts_with("__raw__")) {
+            match cfg.port % 3 {
+                1 => pairs.reverse(),
+                2 => {
+                    let n = pairs.len();
+                    pairs.rotate_left(3 % n.max(1));
+                }
+                _ => {}
+            }
+        }
         for (k, v) in &pairs {
             if k.starts_with("__raw__") {
                 // verbatim line(s), for malformed-file scenarios
